@@ -15,4 +15,4 @@ for s in ev["coverage"]["subchecks"]:
     print("  classes", s.get("classes"))
     for t in s.get("top", [])[:int(os.environ.get("VF_TOP", "10"))] + s.get("skipsamples", [])[:12]:
         r = t["rec"]
-        print("  %.3g %s | %s" % (t["ratio"], t["rel"][:48], " ".join("%s=%s" % (k, short(v)) for k, v in r.items()) if isinstance(r, dict) else r))
+        print("  %.3g %s | %s" % (t["ratio"] if isinstance(t.get("ratio"), (int, float)) else float("inf"), t["rel"][:48], " ".join("%s=%s" % (k, short(v)) for k, v in r.items()) if isinstance(r, dict) else r))
